@@ -159,6 +159,11 @@ def run(ctx):
     pat = [s for s in pat if not s.endswith('\n')]
     bad += ctx.compare('corr:_is_valid_version', [('valid_version', [s]) for s in pat], impl_pat)
 
+    # the entry points that take two version strings, on accepted and rejected strings alike (C03_compare_versions_accepts_the_same)
+    ep = (small[::13] + acc[::7] + rej[::5] + ws[::5] + syn[::3])[:ctx.n(8000, 80000)]
+    bad += ctx.compare('corr:compare_versions:any-strings', [('compare_versions', [s, rng.choice(['1', '1.0-1', 'x', s])]) for s in ep] +
+                       [('compare_versions', [rng.choice(['1', '2:0', '']), s]) for s in ep[::2]], impl)
+    bad += ctx.compare('corr:eval_constraint:any-strings', [('eval_constraint', [s, rng.choice(['>=', '<<', '=', '<', '>', '<=', '>>']), rng.choice(['1', s])]) for s in ep[::2]], impl)
     fails = ctx.prop('prop:accept/reject/decompose', allc, p_accept)
     fails += ctx.prop('prop:independent-of-other-objects', (small[::7] + acc + rej[::3] + syn)[:ctx.n(20000, 200000)], p_other_objects)
     fails += ctx.prop('prop:every-entry-point-accepts-the-same-strings', (small[::11] + acc[::5] + rej[::3] + ws[::3] + syn + pos[::40])[:ctx.n(15000, 150000)], p_entry_points)
